@@ -271,6 +271,21 @@ def run_case(case, ctx):
         if msg:
             ctx.violation('bad_selection', dict(desc, np_seed=1000 * rs + 17), msg, feats)
             break
+    # history: the caller overwrites the array it was handed (sorting it by something else, masking ...) and asks again: every
+    # answer is the caller's own array
+    if req and not subset_chunks and subset_spikes is None:
+        ra = call(sel, None, req)
+        if ra.ok and isinstance(ra.value, np.ndarray) and ra.value.flags.writeable and ra.value.size:
+            first = np.asarray(ra.value).copy()
+            ra.value[...] = 0
+            rb = call(sel, None, req)
+            ctx.mon('result_overwritten_then_asked_again')
+            if not rb.ok or not np.array_equal(np.asarray(rb.value), first):
+                ctx.violation('bad_selection', dict(desc, overwritten_result=True), 'the same request after the caller overwrote the first answer: %r, before %r' % (
+                    rb.exc if not rb.ok else np.asarray(rb.value).tolist()[:20], first.tolist()[:20]), dict(feats, overwritten_result=True), tb=rb.tb)
+            for c_, v_ in spc.items():          # (undo what an aliased answer would have let through)
+                if not np.array_equal(v_, spc0[c_]):
+                    v_[...] = spc0[c_]
     # history: the same selector instance answers a second, different query correctly (no state kept)
     req2 = sorted(set(clusters.tolist()))[:2]
     count2 = 2 if count != 2 else 1
